@@ -55,6 +55,9 @@ def build(rng, mask, i, hostile_mode=False, use_alias=False):
         if key == "namespaces":
             s["namespaces"] = f'nsa="http://nsa.example/{i}" nsb="http://nsb.example/{i}"'
             exp["namespaces"] = {"nsa": f"http://nsa.example/{i}", "nsb": f"http://nsb.example/{i}"}
+            if i % 6 == 2:  # a namespace URI may contain '=' (query string)
+                s["namespaces"] += f' nsq="http://nsq.example/ns?v={i}&x=y"'
+                exp["namespaces"]["nsq"] = f"http://nsq.example/ns?v={i}&x=y"
         elif key == "attribute":
             s["attribute::plainattr"] = f"pa_marker_{i}"
             exp["attributes"] = {"plainattr": f"pa_marker_{i}"}
@@ -86,6 +89,10 @@ def build(rng, mask, i, hostile_mode=False, use_alias=False):
         other = f"idstring_marker_{i}"
         s = dict([("id_string", other)] + list(s.items())) if i % 9 == 4 else dict(list(s.items()) + [("id_string", other)])
         exp["both_ids"] = True
+        if i % 18 == 4:
+            # ... unless the form_id cell is empty: then the id that was written (id_string) is the id
+            s["form_id"] = None
+            exp["form_id"] = other
     f.settings = s
     if i % 5 == 3:
         # an entity declaration adds its own namespace to whatever the namespaces setting declares - it must not displace any of them
